@@ -277,6 +277,16 @@ pub broadcast proof fn lemma_vv_map_insert_auto(m: Map<String, Value>, k: String
 {
     assert(vv_map(m.insert(k, v)) =~= vv_map(m).insert(k, vv(v)));
 }
+pub broadcast proof fn lemma_vv_map_empty()
+    ensures #[trigger] vv_map(Map::<String, Value>::empty()) == Map::<String, Val>::empty(),
+{
+    assert(vv_map(Map::<String, Value>::empty()) =~= Map::<String, Val>::empty());
+}
+pub broadcast proof fn lemma_vv_seq_empty()
+    ensures #[trigger] vv_seq(Seq::<Value>::empty()) == Seq::<Val>::empty(),
+{
+    assert(vv_seq(Seq::<Value>::empty()) =~= Seq::<Val>::empty());
+}
 pub broadcast proof fn lemma_vv_map_dom_auto(m: Map<String, Value>, k: String)
     ensures (#[trigger] vv_map(m).dom().contains(k)) == m.dom().contains(k),
             m.dom().contains(k) ==> (#[trigger] vv_map(m)[k]) == vv(m[k]),
